@@ -21,6 +21,12 @@ def universes(tier, seed):
         out.append((f"I3[{seed % 8}/8]", [("i3", i) for i in U.shard(list(range(1444)), seed, 8)], "all"))
         out.append((f"F3c[{seed % 32}/32]", [("idx", 3, i) for i in U.shard(U.F3_indices(True), seed, 32)], "all"))
         out.append((f"MULTI3[{seed % 4}/4]", [("idx", 3, i) for i in U.shard(U.catalogue("multi"), seed, 4)], "all"))
+    # multiplexed inputs (one source selects between two 3-variable networks): the same motif is reached in contexts with
+    # different dynamics; node-space / literal targets, both strategies, default bound, nothing forbidden
+    n0s = [16555679, 0, 8974576]
+    n1s = U.shard(U.catalogue("maa"), seed, 2048 if tier == "quick" else 128) + U.shard(U.catalogue("multi"), seed, 8 if tier == "quick" else 1) + \
+        U.shard(U.F3_indices(True), seed, 256 if tier == "quick" else 32)
+    out.append(("MUX", [("mux", a, b) for a in n0s for b in n1s], "lite"))
     return out
 
 
@@ -49,7 +55,7 @@ def forb_sets(net):
     return [set()] + [{nm} for nm in net.names]
 
 
-def check_target(net, target, res, spec, tier):
+def check_target(net, target, res, spec, tier, lite=False):
     from biobalm.control import succession_control, successions_to_target
     vio = []
 
@@ -65,8 +71,8 @@ def check_target(net, target, res, spec, tier):
         return vio, len(exp)
     nt = len(exp) >= 2
     for strategy in ("internal", "all"):
-        for maxd in (None, 0, 1, 2, 3):
-            for forb in forb_sets(net):
+        for maxd in ((None, 0, 1, 2, 3) if not lite else (None,)):
+            for forb in (forb_sets(net) if not lite else [set()]):
                 if tier == "quick" and len(forb) >= 2 and maxd not in (None, 1):
                     continue
                 for so in (True, False):
@@ -119,13 +125,17 @@ def run_unit(unit):
     uname, specs, tmode, tier = unit
     res = new_result()
     for spec in specs:
-        net = U.resolve(spec)
+        if spec[0] == "mux":
+            from .c18 import mux_net
+            net = mux_net(spec[1], spec[2])
+        else:
+            net = U.resolve(spec)
         res["states"] += net.N + len(net.spaces)
         try:
             with case_timeout(2000):
                 vio = []
-                for t in targets_of(net, tmode):
-                    v, n = check_target(net, t, res, spec, tier)
+                for t in targets_of(net, tmode if tmode != "lite" else "nodes"):
+                    v, n = check_target(net, t, res, spec, tier, lite=(tmode == "lite"))
                     vio += v
                     res["outcomes"].add(("successions", min(n, 6)))
         except CaseTimeout:
@@ -147,7 +157,11 @@ def run_unit(unit):
 
 
 def replay(case):
-    net = U.resolve(case["net"])
+    if case["net"][0] == "mux":
+        from .c18 import mux_net
+        net = mux_net(case["net"][1], case["net"][2])
+    else:
+        net = U.resolve(case["net"])
     res = new_result()
     if "target" not in case:
         return []
